@@ -193,6 +193,10 @@ pub fn worker(prop: Prop, args: &Args) {
     while i < runs {
         run_one(prop, batch_seed, i, &mut out, &mut d);
         i += stride;
+        if out.violations.len() >= 20 {
+            // enough to report; the rest of the slice would only repeat it
+            break;
+        }
     }
     out.stats.add("delegate_calls", d.calls);
     out.write(&out_path)
@@ -218,7 +222,9 @@ pub fn replay_case(replay: &Json) -> Result<(Case, Option<Finding>), String> {
         Built::ParseRejected(e) => return Err(format!("program no longer parses: {}", e)),
     };
     let subcheck = replay.get("subcheck").and_then(|s| s.as_str()).unwrap_or("");
-    let f = if subcheck.starts_with("empty-context") || subcheck.starts_with("storeless") {
+    let f = if subcheck.starts_with("read-only-evaluation-observable-through-clone") {
+        crate::seam::check_witness_clone(&case, &tree, &mut cx)
+    } else if subcheck.starts_with("empty-context") || subcheck.starts_with("storeless") {
         crate::seam::check_storeless(&case, &tree, src.as_deref(), &mut cx)
     } else {
         check_plan(&case, &tree, src.as_deref(), &faults, prop, &mut cx).finding
@@ -443,6 +449,8 @@ pub fn check(prop: Prop, tier: &str, exe: &Path) -> i32 {
             "c11.earlier_error_wins",
             "c11.empty_context_evaluations",
             "c11.nostore_context_evaluations",
+            "c11.witness_clone_checked",
+            "c11.relational_checked",
         ]);
     }
     for p in probes {
